@@ -3,7 +3,7 @@
    control script (play / pause / resume / stop / close in any order, repeated close, play after
    close), any number of players, any audio length, wait true or false. *)
 From Coq Require Import List Bool Arith ZArith.
-From AL Require Import C17.Model C17.Inv C17.Spec C17.Measure C17.Proofs_Total C17.Proofs_Chunks.
+From AL Require Import C17.Model C17.Inv C17.Spec C17.Measure C17.Proofs_Total C17.Proofs_Chunks C17.Proofs_Multi.
 Import ListNotations.
 
 (* each lock has at most one holder: the threads whose program counter is inside a critical section
@@ -92,6 +92,20 @@ Theorem C17_close_returns : forall s, reachable s ->
   /\ (exists sched, valid_sched s sched /\ stuck (exec s sched)).
 Proof. exact close_returns_reach. Qed.
 Print Assumptions C17_close_returns.
+
+(* several managers in one process = the product of independent models: a global schedule acts on
+   manager m exactly as its projection does (closing B never touches A's players), hence every
+   component state is reachable in the single-manager model and all theorems above apply to it *)
+Theorem C17_managers_independent : forall sched ms m,
+  nth_error (mexec ms sched) m = option_map (fun s => exec s (project m sched)) (nth_error ms m).
+Proof. exact managers_independent. Qed.
+Print Assumptions C17_managers_independent.
+
+Theorem C17_managers_reachable : forall waits_scripts sched m s,
+  nth_error (mexec (map (fun ws => init (fst ws) (snd ws)) waits_scripts) sched) m = Some s ->
+  reachable s.
+Proof. exact managers_reachable. Qed.
+Print Assumptions C17_managers_reachable.
 
 (* ---- non-vacuity: concrete reachable states satisfying the hypotheses of the theorems above *)
 Definition ex_script : list cmd := [CPlay 2 [1; 2; 3]%Z; CPause 0; CClose; CPlay 2 [5]%Z].
